@@ -10,7 +10,7 @@ ID = "C18"
 LEVEL = "exploration"
 RULE = (
     "synthetic result sets over towers 1..4 x steps 1..4 x {2-D, 3-D} x value classes {serial-number fields, random +-, denormals, "
-    "1e+-300, exact zeros, float32 inputs} x timestamps {str, int} x forcing {ustar, z0} x tower names not in sorted order with distinct "
+    "1e+-300, exact zeros, float32 inputs} x timestamps {ISO strings, step indices, integer hours crossing 10, free-text labels, descending dates} x forcing {ustar, z0} x tower names not in sorted order with distinct "
     "lat/lon/height, heights homogeneous or heterogeneous across towers/steps; plus solver-produced sets from run_bldfm_multitower "
     "(ustar and z0 forcing, output_levels, both precisions).  non-trivial = >= 2 slices (towers*steps*levels); distinct = distinct "
     "(towers, steps, dims, value class, timestamp kind, forcing, source, idx)"
@@ -53,7 +53,7 @@ def synthetic(rng):
     ny, nx = int(rng.integers(2, 9)), int(rng.integers(2, 9))
     dx, dy = float(rng.uniform(1, 30)), float(rng.uniform(1, 30))
     vclass = str(rng.choice(["serial", "random", "denormal", "huge", "tiny", "zeros", "float32", "negzero_nan_free"]))
-    tskind = str(rng.choice(["str", "int"]))
+    tskind = str(rng.choice(["str", "int", "int_hours", "labels", "descending"]))
     forcing = str(rng.choice(["ustar", "z0"]))
     hetero = bool(three and rng.random() < 0.5)
     names = [str(x) for x in rng.permutation(["zeta", "Alpha", "mid", "beta-2"])[:nt]]
@@ -66,6 +66,12 @@ def synthetic(rng):
         met["z0"] = 0.05
     if tskind == "str":
         met["timestamps"] = [f"2024-03-0{i + 1}T1{i}:30" for i in range(ns)]
+    elif tskind == "int_hours":  # integer labels whose str() does not sort in step order
+        met["timestamps"] = [8 + i for i in range(ns)]
+    elif tskind == "labels":
+        met["timestamps"] = ["morning", "noon", "evening", "night"][:ns]
+    elif tskind == "descending":
+        met["timestamps"] = [f"2024-03-{28 - i:02d}" for i in range(ns)]
     cfg = parse_config_dict({
         "domain": {"nx": nx, "ny": ny, "xmax": nx * dx, "ymax": ny * dy, "nz": 4, "ref_lat": 50.0, "ref_lon": 11.0},
         "towers": towers, "met": met, "solver": {"closure": str(rng.choice(["MOST", "MOSTM", "CONSTANT"]))},
